@@ -2,7 +2,7 @@
 # check.sh <ID> [--tier quick|thorough] [--replay file]
 # Rebuilds the explorer from /repo's CURRENT working tree (hooks injected through a
 # build overlay, guard tag `verif`) and runs it.  Exit: 0 held / 1 VIOLATION / 2 check broken.
-V=/verif
+V=$(dirname "$(readlink -f "$0")")
 export GOFLAGS=-mod=mod GOPROXY=off GOSUMDB=off GOTOOLCHAIN=local
 export CARGO_NET_OFFLINE=true PIP_NO_INDEX=1
 ID="$1"
@@ -55,4 +55,4 @@ if ! go build -tags "$TAGS" -overlay "$OVERLAY" -o "$W/explorer" ./cmd/explorer 
   echo "CHECK-BROKEN: build of the explorer against /repo failed" >&2
   exit 2
 fi
-VERIF_WORK="$W" "$W/explorer" "$@"
+VERIF_DIR="$V" VERIF_WORK="$W" "$W/explorer" "$@"
